@@ -424,6 +424,11 @@ class Env:
                 if op == "isdir":
                     return ent is not None and ent[0] == "dir"
                 return ent is not None and ent[0] == "file"
+            if op == "stat" and suffix == "" and self.mode == "gone" and getattr(self, "fired", None):
+                # "is it still there?" asked by stat()ing the process directory itself (e.g. _pssunos._assert_alive) after the
+                # failure that announced the process's death
+                self.log("os.stat:", False)
+                raise OSError(errno.ENOENT, "No such file or directory", s)
             return self.native("os.%s:%s" % (op, suffix), (self.pid, suffix), {})
         # everything else: a fixed fake tree, never the real machine's
         self.log("os.%s:%s" % (op, s), False)
